@@ -83,5 +83,11 @@ TileJsonFails(r) ==
      Fails("tj_maxzoom", r.doc_maxzoom = -1 \/ (r.out_maxzoom # -1 /\ r.out_maxzoom <= r.doc_maxzoom)) \cup
      Fails("tj_zoom_covers", r.out_minzoom = -1 \/ r.out_maxzoom = -1 \/
               (r.out_minzoom <= r.cov_minzoom /\ r.out_maxzoom >= r.cov_maxzoom) \/ r.doc_minzoom > r.cov_minzoom \/ (r.doc_maxzoom # -1 /\ r.doc_maxzoom < r.cov_maxzoom)) \cup
-     Fails("tj_bounds", r.bounds_rel \in {"equal", "inside", "added", "none"}))
+     \* bounds (millionths of a degree): a document without bounds may gain them; bounds of the document are returned
+     \* unchanged or narrowed (a proper box inside them), never dropped or widened
+     Fails("tj_bounds", r.doc_bounds_e6 = <<>> \/
+              ( /\ r.out_has_bounds = 1 /\ Len(r.out_bounds_e6) = 4
+                /\ r.out_bounds_e6[1] >= r.doc_bounds_e6[1] /\ r.out_bounds_e6[2] >= r.doc_bounds_e6[2]
+                /\ r.out_bounds_e6[3] <= r.doc_bounds_e6[3] /\ r.out_bounds_e6[4] <= r.doc_bounds_e6[4]
+                /\ r.out_bounds_e6[1] <= r.out_bounds_e6[3] /\ r.out_bounds_e6[2] <= r.out_bounds_e6[4] )))
 =============================================================================
